@@ -139,6 +139,8 @@ def run(tier, seed):
             else:
                 chk.nontrivial(('pair', tag, c['id']))
     plant_placements(chk, seed)
+    # long horizons: windows and take periods placed around a horizon of 10 / 16 steps, random walks of the specification replayed
+    common.long_horizon(chk, tier, seed, [('placement', fam.fam_placement), ('take_placement', lambda T: fam.fam_take_placement(T=T, thorough=False))], RELAX)
     chk.assumptions += ['windows and take periods on step / tick lattices around a 3-step horizon (4 in the thorough tier)']
     return chk.finish(rule='every asset kind x every placement of its window (before, touching, straddling, inside, empty, after, covering); take periods '
                            'x placements x min/max x contract/transport; order lists with outside orders; with/without pairs', exhaustive=True)
